@@ -1406,7 +1406,7 @@ def check_separators(tier, rng):
 
 
 # ====================================================================================================== check 5: contexts
-DEEP_LIMIT = 10.0   # nest 4 / brackets 12 need ~3-4 s, nest 5 ~30 s, brackets 16 ~70 s: the sizes below stay clear of the limit
+DEEP_LIMIT = 5.0    # nest 3 / brackets 8 need ~0.3 s, nest 5 ~30 s, brackets 16 ~70 s: the sizes used stay clear of the limit
 MALFORMED = ['=1 2', '=1+', '=1+2)', '=(1+2', '=SUM(1,2) 4', '=A1 B1', '=IF(A1>0,1,2,4)', '=1,', '=1%%', '=SUM(1,2)+', '="a" "b"',
              '=DAY(D1,2)', '=TODAY(1)', '=1**2']
 
@@ -1587,7 +1587,7 @@ def check_contexts(tier, rng):
                        'the untaken IF branch / another sheet; one Parser object re-used over good, malformed, good workbooks (with and '
                        'without entry cell, get_translation called once or twice); same text on two sheets; array-formula cells; chains '
                        '=1+1+...+1 of 20..' + ('4000' if tier == 'thorough' else '1000') + ' terms, SUM nested 1, 2, 3, 5, 6 deep, brackets '
-                       'nested 1, 2, 4, 8, 16 deep' + (' (and 8 / 20 / 64 deep)' if tier == 'thorough' else '') + ' under a CPU limit of 10 s each, text literals of 10..5000 characters, each complete, with one trailing token, and cut by one character',
+                       'nested 1, 2, 4, 8, 16 deep' + (' (and 8 / 20 / 64 deep)' if tier == 'thorough' else '') + ' under a CPU limit of 5 s each, text literals of 10..5000 characters, each complete, with one trailing token, and cut by one character',
             'rule': 'one evaluation = one scenario; a malformed text that is translated (whole file, or reachable from the entry cell) must '
                     'raise E2PyclParserException in every place and API order, a well-formed one must keep its value; a re-used Parser '
                     'must not hand out the previous translation after a rejection',
